@@ -224,15 +224,29 @@ def main():
                     samples.append(h['sample'])
             trusted += kres.get('trusted', [])
         # ------------------------------------------------------------ verdict
+        # an obligation that is merely undischarged (resource limit) is not a refutation; it becomes a violation
+        # only if the native replayer finds a concrete failing input on the real code (DESIGN.md 2.4)
+        for key in list(undecided_all):
+            if key.startswith('kani::'):
+                continue
+            try:
+                import replay
+                found = replay.search(prop, {'obligation': key}, REPO, seed)
+            except ImportError:
+                found = None
+            if found and found.get('input'):
+                violations.append({'backend': 'verus', 'obligation': key, 'failures': undecided_all[key], 'presearched': found})
+                del undecided_all[key]
         known = load_known()
         real_violations = []
         for v in violations:
-            found = None
-            try:
-                import replay
-                found = replay.search(prop, v, REPO, seed)
-            except ImportError:
-                found = None
+            found = v.get('presearched')
+            if found is None:
+                try:
+                    import replay
+                    found = replay.search(prop, v, REPO, seed)
+                except ImportError:
+                    found = None
             v['search'] = found
             if found and found.get('exhaustive') and not found.get('input') and v['backend'] == 'verus':
                 # the whole domain of the function was replayed natively without a failing input:
